@@ -39,7 +39,7 @@ import (
 	banktypes "github.com/cosmos/cosmos-sdk/x/bank/types"
 )
 
-func init() { props["C17"] = runC17 }
+func init() { props["C17"] = func(r *Rec) { runC17(r); c02For(r, "C17") } }
 
 const c17NAcc = 10
 const c17Fee = 200
